@@ -210,6 +210,25 @@ let run_case_inner (a : string array) : string =
     let m = Printf.sprintf "ok=%s%s eq=1 calls=1+0 utc=%s name=1" b b (b2s (not ok)) in
     (* the cache contract holds for every byte string, well-formed or not *)
     out m m true
+  | "fz" ->
+    let off = zi a 1 and t = zi a 2 in
+    let m = (match fixedOffsetToName off with
+      | Err er -> "ERR:" ^ string_of_err er
+      | OK name ->
+        (match load_name (fun _ -> None) name with
+         | OK (Some z) ->
+           (match break_time z Z0 t with
+            | OK (al, _) ->
+              let isutc = (fixedOffsetFromName name = Some Z0) in
+              Printf.sprintf "%s name=%s eq=1 ok=1 utc=%s" (show_al al) (hex_of_bytes name) (b2s isutc)
+            | Err er -> "ERR:" ^ string_of_err er)
+         | OK None -> "noload"
+         | Err er -> "ERR:" ^ string_of_err er)) in
+    let inrange = not (off = Z0) && Z.compare (Z.abs off) (z_of_int 86400) <> Gt in
+    let o = if inrange then off else Z0 in
+    let s = Printf.sprintf "%s 0 %s %s name=%s eq=1 ok=1 utc=%s" (string_of_z o) (hex_of_bytes (fixed_abbr_spec o))
+              (show_fields (civil_of_seconds (Z.add t o))) (hex_of_bytes (fixed_name_spec off)) (b2s (not inrange)) in
+    out m s (in64 t && in64 off)
   | "cert" ->
     (* the boolean certificates of the loaded zone, and agreement of the
        integer-level functions with the implementation-level ones on a probe *)
